@@ -453,8 +453,9 @@ def m_attr_both_quotes(spec, rng):
             n['k'] += 1
             at = [a for a in e[3]]
             at.append((u'', u'title', rng.choice(vals)))
-            # and an existing free-text attribute of the vocabulary, if there is one
-            at = [(a[0], a[1], a[2] + u' ' + rng.choice(vals)) if (a[0], a[1]) in ((L.TABLENS, u'name'), (L.DRAWNS, u'name'), (L.TEXTNS, u'name'), (L.OFFICENS, u'string-value'), (L.TABLENS, u'formula')) else a for a in at]
+            # and an existing free-text attribute of the vocabulary, if there is one (names are left alone: several
+            # *:name attributes are NCName-typed in the schema)
+            at = [(a[0], a[1], a[2] + u' ' + rng.choice(vals)) if (a[0], a[1]) in ((L.OFFICENS, u'string-value'), (L.TABLENS, u'formula'), (L.OFFICENS, u'title'), (L.XLINKNS, u'title')) else a for a in at]
             return ('E', e[1], e[2], at, e[4])
         return e
     def edit(t):
